@@ -254,6 +254,26 @@ class Internal(Exception):
         self.tb = tb
 
 
+class CaseTimeout(BaseException):
+    """Per-case wall-clock guard fired (inconclusive for that case, never a violation)."""
+
+
+@contextlib.contextmanager
+def time_limit(seconds):
+    """Raise CaseTimeout in the main thread if the block runs longer than `seconds` (SIGALRM)."""
+    import signal
+
+    def _handler(signum, frame):
+        raise CaseTimeout()
+    old = signal.signal(signal.SIGALRM, _handler)
+    signal.setitimer(signal.ITIMER_REAL, seconds)
+    try:
+        yield
+    finally:
+        signal.setitimer(signal.ITIMER_REAL, 0)
+        signal.signal(signal.SIGALRM, old)
+
+
 def internal_key(exc, tb=None):
     """(exception class, innermost frame inside pcbasic/) - the C01 mechanism key."""
     tb = tb if tb is not None else exc.__traceback__
@@ -277,7 +297,7 @@ def guarded(fn, *args, **kwargs):
         return ('exit', None)
     except error.Reset:
         return ('reset', None)
-    except Internal:
+    except (Internal, CaseTimeout):
         raise
     except BaseException as e:  # noqa
         if isinstance(e, (KeyboardInterrupt, SystemExit, MemoryError)) and not _in_pcbasic(e):
